@@ -110,3 +110,32 @@ def sweep(ctx):
         check('api/extracted', p)
     return dict(name='A-bs4-axioms', evaluations=n_nodes, documents=n_docs, failures=[dict(doc=a, axiom=b, detail=c) for a, b, c in fails[:10]],
                 note='assumption validation sweep (not proof)', wall_s=round(time.time() - t0, 2))
+
+
+def single_valued(ctx):
+    """Validation of assumption A-bs4-single: no tree builder registered with this bs4 treats any of the attributes the matcher reads as
+    one string (lang, dir, type, value, min, max, http-equiv, content) as multi-valued, and parsing stores them as `str` on every corpus
+    document.  (A builder configured by the caller with `multi_valued_attributes` for them is outside the domain.)"""
+    import time
+    import bs4
+    from bs4 import builder
+    from . import bounded
+    t0 = time.time()
+    names = {'lang', 'xml:lang', 'dir', 'type', 'value', 'min', 'max', 'http-equiv', 'content'}
+    fails, n = [], 0
+    for b in builder.builder_registry.builders:
+        table = getattr(b, 'DEFAULT_CDATA_LIST_ATTRIBUTES', None) or {}
+        for tag, attrs in dict(table).items():
+            n += 1
+            hit = names & set(attrs)
+            if hit:
+                fails.append(dict(builder=b.__name__, tag=tag, attributes=sorted(hit)))
+    for label, doc, kind in bounded.make_docs(ctx['tier'], ctx['seed']):
+        for el in doc.find_all(True):
+            for k, v in el.attrs.items():
+                if str(k).lower() in names:
+                    n += 1
+                    if not isinstance(v, str):
+                        fails.append(dict(doc=label, element=el.name, attribute=str(k), stored=type(v).__name__))
+    return dict(name='A-bs4-single', evaluations=n, failures=fails[:10], note='assumption validation sweep (not proof): builder tables and stored values on the corpora',
+                wall_s=round(time.time() - t0, 2))
